@@ -165,36 +165,51 @@ theorem yEvenVar_sound (g : CurveGroup) (x y : ℤ) (hbr : g.p % 4 = 3 ∨ g.p %
     · exact hrr
 
 /-- T10 (compressed forms): what `point_from_octets` answers on a 02/03 prefix is `(x, y)` resp. `(x, p − y)` with `y`
-the even root the lift found; when that root is not `0` (no point of order two at this `x`: always on a curve of odd
-order) the answer is reduced, satisfies the curve equation, and has the parity the prefix names.  (When the root IS
-`0` the code answers `(x, 0)` / `(x, p)`: finding `sec.compressed_two_torsion`.) -/
+the even root the lift found, `y ≠ 0` (a lifted `0` — the `x` of a point of order two — is refused), and it is a
+reduced point of the curve with the parity the prefix names (closed-form square-root branches) -/
 theorem pointFromOctets_compressed_sound (g : CurveGroup) (pSize : ℕ) (hybrid : Bool) (pfxB : UInt8) (body : Bytes)
     (Q : Point) (h23 : pfxB.toNat = 2 ∨ pfxB.toNat = 3) (hbr : g.p % 4 = 3 ∨ g.p % 8 = 5)
     (h : pointFromOctets g pSize hybrid (pfxB :: body) = .ok Q) :
-    ∃ y, yEvenVar g (ofBE body) = some y ∧ Q = ((ofBE body : ℤ), if pfxB.toNat = 2 then y else g.p - y) ∧
-      (y ≠ 0 → isOnCurveX g Q = some true ∧ Q.2 % 2 = (pfxB.toNat : ℤ) - 2) := by
+    (pfxB :: body).length = pSize + 1 ∧ Q.1 = (ofBE body : ℤ) ∧ Q.2 ≠ 0 ∧ isOnCurveX g Q = some true ∧
+      Q.2 % 2 = (pfxB.toNat : ℤ) - 2 := by
   unfold pointFromOctets at h
   split at h; · cases h
   simp only [h23, if_true] at h
   split at h; · cases h
+  next hsz =>
   split at h
   · cases h
   · next y hy =>
+    split at h; · cases h
+    next hy0 =>
     have hQ : Q = ((ofBE body : ℤ), if pfxB.toNat = 2 then y else g.p - y) := by
       injection h with h; exact h.symm
-    refine ⟨y, hy, hQ, ?_⟩
-    intro hy0
     obtain ⟨hxr, hyr, hev, hsq⟩ := yEvenVar_sound g _ y hbr hy
     subst hQ
+    refine ⟨not_not.mp hsz, rfl, ?_⟩
     by_cases h2 : pfxB.toNat = 2
     · simp only [h2, if_true]
-      refine ⟨(isOnCurveX_true_iff g _ hy0).mpr ⟨hxr, by omega, hsq.symm⟩, by omega⟩
+      exact ⟨hy0, (isOnCurveX_true_iff g _ hy0).mpr ⟨hxr, by omega, hsq.symm⟩, by omega⟩
     · have h3 : pfxB.toNat = 3 := by omega
       simp only [h2, if_false]
       have hne : g.p - y ≠ 0 := by omega
-      refine ⟨(isOnCurveX_true_iff g _ hne).mpr ⟨hxr, by omega, ?_⟩, by omega⟩
+      refine ⟨hne, (isOnCurveX_true_iff g _ hne).mpr ⟨hxr, by omega, ?_⟩, by omega⟩
       have : (g.p - y) * (g.p - y) = y * y + g.p * (g.p - 2 * y) := by ring
       show y2 g _ = (g.p - y) * (g.p - y) % g.p
       rw [this, Int.add_mul_emod_self_left]; exact hsq.symm
+
+/-- T10: whatever `point_from_octets` answers — any prefix, hybrid or not — is a reduced point of the curve, never the
+spelling of infinity (closed-form square-root branches for the compressed forms) -/
+theorem pointFromOctets_on_curve (g : CurveGroup) (pSize : ℕ) (hybrid : Bool) (b : Bytes) (Q : Point)
+    (hbr : g.p % 4 = 3 ∨ g.p % 8 = 5) (h : pointFromOctets g pSize hybrid b = .ok Q) :
+    Q.2 ≠ 0 ∧ isOnCurveX g Q = some true := by
+  cases b with
+  | nil => simp [pointFromOctets] at h
+  | cons pfxB body =>
+    by_cases h23 : pfxB.toNat = 2 ∨ pfxB.toNat = 3
+    · obtain ⟨_, _, h1, h2, _⟩ := pointFromOctets_compressed_sound g pSize hybrid pfxB body Q h23 hbr h
+      exact ⟨h1, h2⟩
+    · obtain ⟨_, _, _, h1, _, h2⟩ := (pointFromOctets_both_iff g pSize hybrid pfxB body Q h23).mp h
+      exact ⟨h1, h2⟩
 
 end Btc.C01
